@@ -8,7 +8,7 @@ REPO=${REPO:-/repo}
 VERIF=$(cd "$(dirname "$0")/.." && pwd)
 SRC="$REPO/lib/libconfig.c $REPO/lib/scanctx.c $REPO/lib/scanner.c $REPO/lib/grammar.c $REPO/lib/strbuf.c $REPO/lib/strvec.c $REPO/lib/util.c $REPO/lib/wincompat.c"
 HDR=$(ls $REPO/lib/*.h)
-H=$( (cat $SRC $HDR "$VERIF/harness/drv.c" "$VERIF/harness/thr.c" "$0"; echo $V) | sha256sum | cut -c1-16)
+H=$( (cat $SRC $HDR "$REPO/lib/libconfigcpp.c++" "$VERIF/harness/drv.c" "$VERIF/harness/thr.c" "$VERIF/harness/drvxx.cc" "$0"; echo $V) | sha256sum | cut -c1-16)
 OUT="$VERIF/build/harness/$V-$H"
 if [ ! -x "$OUT/drv" ]; then
   mkdir -p "$OUT"
@@ -18,7 +18,24 @@ if [ ! -x "$OUT/drv" ]; then
     plain) FL="-O1 -g" ;;
     tsan) FL="-O1 -g -fsanitize=thread" ;;
     fault) FL="-O0 -g" ;;
+    cxx) FL="-O1 -g -fsanitize=address,undefined -fno-sanitize-recover=all -fno-omit-frame-pointer" ;;
   esac
+  if [ "$V" = cxx ]; then
+    # C++ variant: drv.c (as C, -DDRV_CXX) + drvxx.cc + libconfigcpp.c++ (as C++), linked with g++
+    OBJS=""
+    for f in $SRC "$VERIF/harness/drv.c"; do
+      o="$OUT/$(basename $f .c).o"
+      gcc $FL $DEFS -DDRV_CXX -I"$REPO/lib" -c "$f" -o "$o" 2>>"$OUT/build.log" || { cat "$OUT/build.log" >&2; rm -rf "$OUT"; exit 3; }
+      OBJS="$OBJS $o"
+    done
+    g++ $FL $DEFS -DDRV_CXX -I"$REPO/lib" -c "$VERIF/harness/drvxx.cc" -o "$OUT/drvxx.o" 2>>"$OUT/build.log" || { cat "$OUT/build.log" >&2; rm -rf "$OUT"; exit 3; }
+    g++ $FL $DEFS -x c++ -I"$REPO/lib" -c "$REPO/lib/libconfigcpp.c++" -o "$OUT/libconfigcpp.o" 2>>"$OUT/build.log" || { cat "$OUT/build.log" >&2; rm -rf "$OUT"; exit 3; }
+    g++ $FL -o "$OUT/drv.tmp" $OBJS "$OUT/drvxx.o" "$OUT/libconfigcpp.o" -lpthread -Wl,--wrap=fopen,--wrap=fclose,--wrap=fsync 2>>"$OUT/build.log" || { cat "$OUT/build.log" >&2; rm -rf "$OUT"; exit 3; }
+    mv "$OUT/drv.tmp" "$OUT/drv"
+    ls -dt "$VERIF"/build/harness/$V-* 2>/dev/null | tail -n +7 | xargs -r rm -rf
+    echo "$OUT/drv"
+    exit 0
+  fi
   if [ "$V" = fault ]; then
     # the library's own allocation requests are redirected at compile time (no source change)
     LDEFS="-Dmalloc=lc_malloc -Dcalloc=lc_calloc -Drealloc=lc_realloc -Dstrdup=lc_strdup"
